@@ -25,6 +25,10 @@ Section Model.
 Context {R O X : Type}.
 Variable R_eqb : R -> R -> bool.
 Variable O_eqb : O -> O -> bool.
+(** the empty SubscribeRequest message and the remaining fields of an empty
+    Target message (what proto.Clone makes of a nil map value, see [current]) *)
+Variable R_empty : R.
+Variable O_empty : O.
 
 (** pb.Target *)
 Record target := mkTarget {
@@ -213,8 +217,43 @@ Definition new_config_with_base (base : option config) : outcome state :=
   | Some c => match validate c with Some _ => Err 2%N | None => Ok (Some c) end
   end.
 
-(** Current: a copy of the state *)
-Definition current (s : state) : option config := s.
+(** Current: proto.Clone of the state.  Clone copies a map entry whose value is a
+    nil message pointer as an *empty* message (mergeMap allocates a new message
+    and merges the invalid one into it); a nil configuration stays nil. *)
+Definition clone_config (c : config) : config :=
+  mkConfig (c_revision c)
+           (map (fun kr => (fst kr, match snd kr with Some r => Some r | None => Some R_empty end))
+                (c_request c))
+           (map (fun kt => (fst kt, match snd kt with
+                                    | Some t => Some t
+                                    | None => Some (mkTarget [] "" O_empty)
+                                    end))
+                (c_target c))
+           (c_other c).
+
+Definition current (s : state) : option config :=
+  match s with Some c => Some (clone_config c) | None => None end.
+
+(** ** the caller edits, in place, the message it handed to the last accepted
+    Load (or to NewConfigWithBase)
+
+    [Load] stores the caller's pointer ([c.configuration = config]) and
+    [NewConfigWithBase] stores the base pointer, so such an edit is an edit of
+    [Config.configuration] itself: no validation, no revision gate, no handler
+    call.  [c'] is the content of the message after the edit. *)
+
+(* DEFECT C17_1: [true] mirrors target.go as it is now (the configuration is
+   stored by reference).  Once fixes/C17_1_load_clone.diff is in (Load and
+   NewConfigWithBase store proto.Clone(config)) this becomes [false] and
+   [mutate] is the identity on the state. *)
+Definition stored_by_reference : bool := true.
+
+Definition mutate_gen (alias : bool) (s : state) (c' : config) : state :=
+  if alias
+  then match s with Some _ => Some c' | None => None end
+  else s.
+
+Definition mutate : state -> config -> state := mutate_gen stored_by_reference.
 
 (** ** histories *)
 
@@ -222,14 +261,35 @@ Definition load_state (s : state) (arg : option config) : state := fst (fst (loa
 Definition load_calls (s : state) (arg : option config) : list call := snd (load s arg).
 Definition load_err (s : state) (arg : option config) : option N := snd (fst (load s arg)).
 
-(** state after a sequence of loads, and the handler calls of each load *)
-Fixpoint run (s : state) (ls : list (option config)) : state * list (list call) :=
-  match ls with
-  | [] => (s, [])
-  | a :: ls' =>
-      let r := run (load_state s a) ls' in
-      (fst r, load_calls s a :: snd r)
+(** what a client of one [Config] can do: load, or edit the message it loaded last *)
+Inductive hop :=
+| HLoad (arg : option config)
+| HMutate (c' : config).
+
+Definition hop_state (alias : bool) (s : state) (h : hop) : state :=
+  match h with
+  | HLoad a => load_state s a
+  | HMutate c' => mutate_gen alias s c'
   end.
+
+Definition hop_calls (s : state) (h : hop) : list call :=
+  match h with
+  | HLoad a => load_calls s a
+  | HMutate _ => []
+  end.
+
+(** state after a history, and the handler calls of each step *)
+Fixpoint run_gen (alias : bool) (s : state) (hs : list hop) : state * list (list call) :=
+  match hs with
+  | [] => (s, [])
+  | h :: hs' =>
+      let r := run_gen alias (hop_state alias s h) hs' in
+      (fst r, hop_calls s h :: snd r)
+  end.
+
+(** histories of loads only *)
+Definition run (s : state) (ls : list (option config)) : state * list (list call) :=
+  run_gen false s (map HLoad ls).
 
 (** ** what a subscriber to the handler knows
 
@@ -274,6 +334,7 @@ Arguments rval : clear implicits.
 Arguments config : clear implicits.
 Arguments state : clear implicits.
 Arguments call : clear implicits.
+Arguments hop : clear implicits.
 Arguments entry : clear implicits.
 Arguments eff : clear implicits.
 Arguments mkTarget {O}.
